@@ -124,9 +124,18 @@ def havoc(ex, st, body, inv, extra_rebound=()):
             pv = SList(pv.n, pv.get, decls[nm].elem)
         if isinstance(pv, tuple) and pv and isinstance(pv[0], str):
             raise Unsupported('havoc of lazy value %s' % nm)
+        if isinstance(pv, SDict) and nm in mutated:
+            if nm not in decls or not isinstance(decls[nm], TDict):
+                raise Unsupported('loop mutates dict %s (declare its value type in the invariant)' % nm)
+            facts = []
+            vf = fresh_fun(decls[nm].val, nm + '_val', 1, facts)
+            for f in facts:
+                st.assume(f)
+            nd = SDict(pv.dom, lambda kx, vf=vf: vf(kx), decls[nm].val)
+            nd.keys_range = getattr(pv, 'keys_range', None)
+            st.store(cur, nd)
+            continue
         if isinstance(pv, (SObj, SFun, SGen, SDict)) or pv is None or isinstance(pv, str):
-            if nm in mutated and isinstance(pv, SDict):
-                raise Unsupported('loop mutates dict %s (needs explicit model)' % nm)
             if nm in rebound and nm not in mutated and (pv is None or isinstance(pv, str)):
                 raise Unsupported('loop rebinds %s from a non-numeric value' % nm)
             continue
@@ -297,6 +306,11 @@ def exec_for(ex, t, st):
         b = hv.fork()
         b.assume(kk < Z(n))
         ex.bind_target(t.target, get(kk), b)
+        if isinstance(t.target, ast.Name) and isinstance(itv, Ref) and isinstance(b.env.get(t.target.id), Ref):
+            root = itv.root if itv.origin == 'alias' and itv.root is not None else itv.oid
+            if root in ex.frame_roots:
+                el = b.deref(b.env[t.target.id])
+                b.env[t.target.id] = b.alloc(el, 'alias', root=root, rootver=b.ver.get(root, 0), note='param element of ' + ex.frame_roots[root])
         exits = []
         for (s, kd, v) in ex.exec_block(t.body, b):
             if kd in ('next', 'continue'):
